@@ -167,7 +167,14 @@ func Digits() *rapid.Generator[int] {
 // MutateCode derives a wrong (or accidentally right) string from a code.
 func MutateCode(t *rapid.T, code string) string {
 	b := []byte(code)
-	switch rapid.IntRange(0, 15).Draw(t, "mutKind") {
+	switch rapid.IntRange(0, 16).Draw(t, "mutKind") {
+	case 16: // the code followed by 256, 512, 768 or 65536 more bytes: a length compared after narrowing to 8 or 16 bits is "right"
+		n := rapid.SampledFrom([]int{256, 512, 768, 65536, 256, 512}).Draw(t, "mutLenAlias")
+		fill := rapid.SampledFrom([]string{"0", "7", " ", "x", "\x00"}).Draw(t, "mutLenFill")
+		if rapid.Bool().Draw(t, "mutLenFront") {
+			return strings.Repeat(fill, n) + code
+		}
+		return code + strings.Repeat(fill, n)
 	case 14, 15: // same length, all digits, numerically congruent to the code modulo a power of two (a validator that
 		// compares numbers after a narrowing conversion accepts these): v ± 2^k for the k that fit in the width
 		v, okNum := uint64(0), len(b) > 0 && len(b) <= 19
